@@ -1625,8 +1625,14 @@ impl<const N: usize> ScenN<N> {
             } else if let Some(n) = toks[4].strip_prefix("short:") {
                 pearl::verif::Action::Short(n.parse().unwrap_or(0))
             } else if let Some(g) = toks[4].strip_prefix("pause:") {
-                // the operation blocks inside its blocking closure until `release <gate>`
-                pearl::verif::Action::Pause(g.parse().unwrap_or(1))
+                // the operation blocks inside its blocking closure until `release <gate>`; a watchdog opens the gate
+                // after 8 s so that a script that never releases it cannot hang the run
+                let gate: u64 = g.parse().unwrap_or(1);
+                std::thread::spawn(move || {
+                    std::thread::sleep(Duration::from_secs(8));
+                    pearl::verif::release(gate);
+                });
+                pearl::verif::Action::Pause(gate)
             } else {
                 return "bad-op".into();
             };
